@@ -145,6 +145,8 @@ Step(s, e, ln) ==
                    !.viol = s.viol
                       \cup {<<e.case, ln, id, "lost wake-up / no progress in free-running stress">> :
                                id \in IF e.stuck > 0 THEN Enforce \cap {"C10"} ELSE {}}
+                      \cup {<<e.case, ln, id, "a wake-up issued from inside another body's wake-up (inline tee) is lost">> :
+                               id \in IF e.nested_lost > 0 THEN Enforce \cap {"C10"} ELSE {}}
                       \cup {<<e.case, ln, id, "wrong bytes or wrong terminal event in free-running stress">> :
                                id \in IF e.mismatch > 0 THEN Enforce \cap {"C08", "C11"} ELSE {}}
                       \cup {<<e.case, ln, id, "panic in free-running stress">> :
